@@ -837,6 +837,7 @@ func (fc *FnCtx) storeLoc(st *State, l loc, v Val) {
 func (fc *FnCtx) writeElem(st *State, s VSlice, i T, v Val) {
 	if isByteElem(s.Elem) {
 		cell := add(s.Off, i)
+		fc.frameWrite(st, tTrue, s.Rgn, cell, add(cell, mkInt(1)), fc.curPos, "index-write")
 		na := store(sel(st.heap, s.Rgn), cell, asInt(v))
 		st.heap = fc.define(store(st.heap, s.Rgn, na), "H")
 		return
@@ -1196,7 +1197,8 @@ func (fc *FnCtx) allocBytes(st *State, elems []T) VSlice {
 
 func (fc *FnCtx) evalTypeAssert(st *State, x *ast.TypeAssertExpr, commaOk bool) Val {
 	fc.eval(st, x.X)
-	if !fc.lenient {
+	if !fc.lenient && !commaOk {
+		// the single-value form can panic; the comma-ok form cannot (both outcomes are explored, the value is unknown)
 		panic(unsupported("type assertion " + fc.src(x)))
 	}
 	fc.havocs++
